@@ -10,7 +10,7 @@ and lets TLC judge the predicates of spec/MirrorAsm.tla (spec/MirrorAsmCheck.tla
 Nothing in here decides the property: it builds configurations, runs the harness and forwards TLC's verdicts.
 """
 import json, os, random, time
-import vlib, vmeshlib
+import vlib
 
 MPIRUN = ["mpirun", "--allow-run-as-root", "--oversubscribe", "--bind-to", "none", "--mca", "mpi_yield_when_idle", "1", "-np"]
 
@@ -40,19 +40,20 @@ def tri_raw(nx, ny):
     return {"X": X, "cs": 0, "cells": cells, "route": "factory"}
 
 
-def cfg(nr, shape, grid, levels, owner=None, mode=None, args=(), keep_base=False, multi=True, els=None, tag=""):
+def cfg(nr, shape, grid, levels, owner=None, mode=None, args=(), keep_base=False, multi=True, els=None, tuples=(), tag=""):
     nx, ny, nz = (list(grid) + [1, 1])[:3]
     dim = 3 if shape == "hexa" else 2
     fam = "simplex" if shape == "tria" else "hypercube"
     c = {"nr": nr, "dim": dim, "fam": fam, "nx": nx, "ny": ny, "nz": nz, "levels": list(levels), "args": list(args), "multi": multi,
          "mode": mode or ("explicit" if owner is not None else "types"), "keep_base": keep_base,
-         "els": list(els or (SIMP_ELS if fam == "simplex" else CUBE_ELS))}
+         "els": list(els or (SIMP_ELS if fam == "simplex" else CUBE_ELS)), "tuples": list(tuples)}
     if owner is not None:
         c["owner"] = list(owner)
     if shape == "tria":
         c["raw"] = tri_raw(nx, ny)
     c["label"] = "%s%s %s np=%d levels=%s %s%s%s" % (tag, shape, "x".join(str(g) for g in (nx, ny, nz)[:dim]), nr, " ".join(levels), c["mode"],
-                                                    (" " + " ".join(args)) if args else "", " keep_base" if keep_base else "")
+                                                    (" " + " ".join(args)) if args else "", " keep_base" if keep_base else "") + (
+                                                        (" tuples=" + "+".join(tuples)) if tuples else "")
     return c
 
 
@@ -95,7 +96,10 @@ def configurations(tier, rng, asg):
     pick = canon if thorough else [a for k, a in enumerate(canon) if k % 3 == 0]
     for k, a in enumerate(pick):
         o = owner_from_ranks(a, 4)
-        out.append(cfg(len(a), "quad", (2, 2), ["2", "0"] if (thorough or k % 2 == 0) else ["1", "0"], owner=o, keep_base=True, tag="enum:"))
+        # tuple spaces: the 2-component system objects everywhere, the 3-component ones with a base splitter on one configuration per
+        # process count (build_splitter_tuple with three components: known finding C13-splitter-tuple3)
+        tup = ("t2", "t3") if k in (0, 1, len(pick) - 1) else ("t2",)
+        out.append(cfg(len(a), "quad", (2, 2), ["2", "0"] if (thorough or k % 2 == 0) else ["1", "0"], owner=o, keep_base=True, tuples=tup, tag="enum:"))
     pick = canon if thorough else [a for k, a in enumerate(canon) if k % 5 == 1]
     for a in pick:
         out.append(cfg(len(a), "tria", (2, 2), ["1", "0"], owner=owner_from_ranks(a, 4), keep_base=True, tag="enum:"))
@@ -106,15 +110,15 @@ def configurations(tier, rng, asg):
     pick = lab4 if thorough else [a for k, a in enumerate(lab4) if k in (0, 9, 14)]
     for k, a in enumerate(pick):
         o = owner_from_ranks(a, 4)
-        out.append(cfg(4, "quad", (2, 2), lv(4, 2, 1), owner=o, tag="enum:"))
+        out.append(cfg(4, "quad", (2, 2), lv(4, 2, 1), owner=o, tuples=("t2", "t3"), tag="enum:"))
         if thorough or k == 1:
             out.append(cfg(4, "tria", (2, 2), lv(4, 2, 1), owner=o, tag="enum:"))
         if thorough and k % 4 == 0:
             out.append(cfg(4, "hexa", (2, 2, 1), lv(4, 2, 1), owner=o, tag="enum:"))
-            out.append(cfg(4, "quad", (2, 2), lv(4, 1, top=1), owner=o, keep_base=True, tag="enum:"))
+            out.append(cfg(4, "quad", (2, 2), lv(4, 1, top=1), owner=o, keep_base=True, tuples=("t2",), tag="enum:"))
     if not thorough:
         out.append(cfg(4, "hexa", (2, 2, 1), lv(4, 2, 1), owner=[0, 1, 2, 3], els=["lagrange2", "lagrange3", "crorav", "discontinuous1"], tag="enum:"))
-        out.append(cfg(4, "quad", (2, 2), lv(4, 1, top=1), owner=[0, 2, 1, 3], keep_base=True, tag="enum:"))
+        out.append(cfg(4, "quad", (2, 2), lv(4, 1, top=1), owner=[0, 2, 1, 3], keep_base=True, tuples=("t2",), tag="enum:"))
     # ---- 4x4 squares, sampled owner maps (seeded): patches of unequal size, ragged interfaces, disconnected patches -----------------------
     def rand_owner(nc, nr):
         o = list(range(nr)) + [rng.randrange(nr) for _ in range(nc - nr)]
@@ -124,7 +128,7 @@ def configurations(tier, rng, asg):
         out.append(cfg(4, "quad", (4, 4), lv(4, 2, 1), owner=rand_owner(16, 4), els=["lagrange1", "lagrange2", "lagrange3", "crorav"], tag="rand:"))
         out.append(cfg(3, "quad", (4, 4), ["1", "0"], owner=rand_owner(16, 3), keep_base=True, els=["lagrange2", "discontinuous1", "bernstein2"], tag="rand:"))
         if thorough:
-            out.append(cfg(6, "quad", (3, 2), lv(6, 3, 1), owner=rand_owner(6, 6), tag="rand:"))
+            out.append(cfg(6, "quad", (3, 2), lv(6, 3, 1), owner=rand_owner(6, 6), tuples=("t2", "t3"), tag="rand:"))
             out.append(cfg(6, "tria", (3, 2), lv(6, 2, 1), owner=rand_owner(6, 6), tag="rand:"))
             out.append(cfg(8, "quad", (4, 2), lv(8, 4, 2, 1), owner=rand_owner(8, 8), els=["lagrange2", "lagrange3", "crorav"], tag="rand:"))
             out.append(cfg(8, "hexa", (2, 2, 2), lv(8, 2, 1), owner=rand_owner(8, 8), els=["lagrange2", "lagrange3", "crorav"], tag="rand:"))
@@ -152,7 +156,7 @@ def merge(c):
         a = s.split(":")
         want.append({"lvl": int(a[0]), "np": int(a[1]) if len(a) > 1 else -1})
     rec = {"id": c["id"], "nr": c["nr"], "dim": c["dim"], "fam": c["fam"], "grid": [c["nx"], c["ny"], c["nz"]], "want": want,
-           "multi": c["multi"], "keep_base": c["keep_base"], "els": c["els"], "K": ranks[0]["K"], "ranks": ranks}
+           "multi": c["multi"], "keep_base": c["keep_base"], "els": c["els"], "tuples": c["tuples"], "K": ranks[0]["K"], "ranks": ranks}
     path = c["out"] + ".json"
     with open(path, "w") as f:
         f.write(json.dumps(rec, separators=(",", ":")) + "\n")
@@ -162,6 +166,48 @@ def merge(c):
     for r in range(c["nr"]):
         os.remove(c["out"] + ".r%d" % r)
     return path, ncell * len(c["els"]) + ndof, ranks[0]["chosen"]
+
+
+def judge(chk, items, gdir, nproc):
+    """TLC evaluates spec/MirrorAsmCheck.tla on the merged dumps: the cases are spread over `nproc` batches of similar weight (longest first),
+    one TLC process per batch (threads only: this runs next to the other parts of the check)"""
+    import concurrent.futures as cf
+    nb = max(1, min(nproc, len(items)))
+    batches = [[] for _ in range(nb)]
+    load = [0] * nb
+    for it in sorted(items, key=lambda x: -x["weight"]):
+        k = load.index(min(load))
+        batches[k].append(it)
+        load[k] += it["weight"] + 1500
+    paths = []
+    for k, b in enumerate(batches):
+        path = os.path.join(gdir, "c13mir_batch_%d_%d.ndjson" % (os.getpid(), k))
+        with open(path, "w") as out:
+            for it in b:
+                with open(it["path"]) as f:
+                    out.write(f.readline().rstrip("\n") + "\n")
+        paths.append(path)
+    verdicts = {}
+    try:
+        with cf.ThreadPoolExecutor(max_workers=nb) as ex:
+            futs = [ex.submit(vlib.tlc, "MirrorAsmCheck", "MirrorAsmCheck.cfg", env={"C13_MIRROR": paths[k]}, timeout=3000, xmx="3g",
+                              tag="c13mir_%d" % k) for k in range(nb)]
+            for k, fu in enumerate(futs):
+                r = fu.result()
+                chk.add_tlc(r, "MirrorAsmCheck batch %d (%d configurations)" % (k, len(batches[k])))
+                if r.violation:
+                    raise vlib.MachineryError("TLC reported an error while evaluating mirror-assembly batch %d: %s\n%s" % (k, r.violation, r.out[-1500:]))
+                if len(r.printed) != len(batches[k]):
+                    raise vlib.MachineryError("TLC evaluated %d of %d configurations of mirror-assembly batch %d" % (len(r.printed), len(batches[k]), k))
+                for v in r.printed:
+                    verdicts[v["id"]] = v
+    finally:
+        for p in paths:
+            try:
+                os.remove(p)
+            except OSError:
+                pass
+    return verdicts
 
 
 def sig(c, pred, el, vi):
@@ -212,8 +258,7 @@ def run_mirror(chk):
         chk.violation(sig(c, "harness:" + str(rr.get("outcome", "bad")), "", -1), "%s (%s): %s" % (c["id"], c["label"], desc),
                       {"kind": "case", "harness": "c13_mirrorasm", "np": c["nr"], "case": slim, "result": rr})
     vlib.log("[c13mir] %d configurations run on MPI ranks %.1fs" % (len(cases), time.time() - t0))
-    verdicts, _ = vmeshlib.run_tlc_stream(chk, "MirrorAsmCheck", "C13_MIRROR", items, "c13mir", prepare="load_plain",
-                                          max_procs=6 if chk.tier == "thorough" else 5, target_weight=None, cap_weight=60000)
+    verdicts = judge(chk, items, gdir, nproc=6 if chk.tier == "thorough" else 4)
     tot = {"gate": 0, "gate_multidim": 0, "child": 0, "child_multidim": 0, "patch": 0, "values": 0}
     for c in good:
         v = verdicts.get(c["id"])
